@@ -186,7 +186,11 @@ class ServerWorld:
         return factory
 
     # ------------------------------------------------------------ incarnations
-    def boot(self):
+    def boot(self, background=False):
+        """background=True: this incarnation lives under a scheduler of its own.  Every thread the server starts by itself
+        (a restore in the background, a timer ...) becomes a task that stays parked until the driver calls settle(): the
+        driver decides whether background work happens before, between or after the requests.  A server that starts no
+        threads behaves exactly as with background=False."""
         from BPTK_Py.server import BptkServer
         from BPTK_Py.externalstateadapter import FileAdapter
         adapter = None
@@ -195,13 +199,48 @@ class ServerWorld:
         self.fs.crashed = False
         self.incarnation += 1
         self.log.add("boot", self.incarnation)
+        self._bg_end()
+        if background:
+            import threading
+            import BPTK_Py.sdsimulation.sd_simulation as sdsim
+            from sim.threads import Scheduler, BackgroundLastPolicy, SimThread
+            self._bg_seams = patches.Seams()
+            self._bg_seams.set(threading, "Thread", SimThread)
+            self._bg_seams.set(sdsim, "Thread", SimThread)
+            self._bg = Scheduler(BackgroundLastPolicy(), (), log=None)
+            self._bg.__enter__()
         self.app = BptkServer("verif_server", self._factory(), adapter, self.token)
         self.app.logger.disabled = True
+        if background:
+            # whatever the constructor started is background work
+            self._bg.policy.bg = {t.tid for t in self._bg.tasks if t.tid != 0}
+            if self._bg.policy.bg:
+                self.result.probe("server_started_background_threads")
         return self.app
+
+    def settle(self):
+        """let everything the server started in the background run to completion"""
+        bg = getattr(self, "_bg", None)
+        n = 0
+        if bg is not None:
+            while bg._others(bg.current) and n < 1000:
+                bg.yield_now("settle")
+                n += 1
+        return n
+
+    def _bg_end(self):
+        bg = getattr(self, "_bg", None)
+        if bg is not None:
+            try:
+                bg.__exit__(None, None, None)
+            finally:
+                self._bg = None
+                self._bg_seams.restore()
 
     def crash(self):
         if self.app is not None:
             self.log.add("crash", self.incarnation)
+        self._bg_end()
         self.app = None
 
     # ------------------------------------------------------------ request plumbing
